@@ -113,6 +113,21 @@ def op (s : Sess) (ws : List String) : Sess × Option String :=
       | _, _ => (s, some "bad-op")
   | ["cls", t, sd, c, e] =>
       (s, some (toString (classify (t == "1") (sd == "1") (c == "1") (e == "1"))))
+  | ["rv", "s", i, a, k] =>
+      -- versions a storage read of transaction `i` records: latest reset marker, latest slot entry
+      match i.toNat?, a.toNat?, k.toNat? with
+      | some i, some a, some k =>
+          let r := latest (fun j => if (s.mv j).reset a then some () else none) i
+          let w := latest (fun j => (s.mv j).slot a k) i
+          let show1 (o : Option Nat) : String := match o with | some j => toString j | none => "-"
+          (s, some s!"R{show1 (r.map (·.1))} S{show1 (w.map (·.1))}")
+      | _, _, _ => (s, some "bad-op")
+  | ["rv", "b", i, a] =>
+      match i.toNat?, a.toNat? with
+      | some i, some a =>
+          let b := latest (fun j => (s.mv j).basic a) i
+          (s, some s!"B{match b with | some (j, _) => toString j | none => "-"}")
+      | _, _ => (s, some "bad-op")
   | ["ws", j] =>
       -- the write set of transaction `j`: exactly the locations it published
       match j.toNat? with
